@@ -179,20 +179,48 @@ func (vc *VC) guardCheckMap(fr *Frame, n *Node, m ssa.Value, write bool, pos tok
 	if !vc.lockOn {
 		return
 	}
-	// find the field the map value was loaded from
-	u, ok := m.(*ssa.UnOp)
-	if !ok || u.Op != token.MUL {
-		return
-	}
-	lv := fr.lvs[u.X]
-	if lv == nil || lv.kind != lvHeap || len(lv.path) == 0 || lv.fresh || fr.allocFresh[lv.ref] {
-		return
-	}
-	g, ok := vc.p.guards[typeName(lv.root)+"."+lv.path[0]]
-	if !ok || g.Mode != "guarded" {
+	// find the field the map value was loaded from (directly, or through a local variable that holds a copy of the
+	// map reference: the copy aliases the shared map, so its contents need the lock just the same)
+	lv, g := vc.guardedMapSource(fr, m, 0, map[ssa.Value]bool{})
+	if lv == nil {
 		return
 	}
 	vc.guardOblig(fr, n, g, lv, write, false, pos)
+}
+
+func (vc *VC) guardedMapSource(fr *Frame, m ssa.Value, depth int, seen map[ssa.Value]bool) (*LVal, *GuardDecl) {
+	if depth > 6 || seen[m] {
+		return nil, nil
+	}
+	seen[m] = true
+	switch u := m.(type) {
+	case *ssa.UnOp:
+		if u.Op != token.MUL {
+			return nil, nil
+		}
+		if lv := fr.lvs[u.X]; lv != nil && lv.kind == lvHeap && len(lv.path) > 0 && !lv.fresh && !fr.allocFresh[lv.ref] {
+			if g, ok := vc.p.guards[typeName(lv.root)+"."+lv.path[0]]; ok && g.Mode == "guarded" {
+				return lv, g
+			}
+			return nil, nil
+		}
+		if a, ok := u.X.(*ssa.Alloc); ok && !a.Heap && a.Referrers() != nil {
+			for _, r := range *a.Referrers() {
+				if st, ok := r.(*ssa.Store); ok && st.Addr == ssa.Value(a) {
+					if lv, g := vc.guardedMapSource(fr, st.Val, depth+1, seen); lv != nil {
+						return lv, g
+					}
+				}
+			}
+		}
+	case *ssa.Phi:
+		for _, e := range u.Edges {
+			if lv, g := vc.guardedMapSource(fr, e, depth+1, seen); lv != nil {
+				return lv, g
+			}
+		}
+	}
+	return nil, nil
 }
 
 func (vc *VC) atomicAccess(fr *Frame, n *Node, lv *LVal, write bool, pos token.Pos) {
